@@ -12,17 +12,19 @@ namespace IrVerif.Extract
 abbrev Env (α : Type) := VId → α
 abbrev Interp (α : Type) := NId → Env α → VId → α
 
-def Local {α : Type} (W : World) (p : GId) (F : Interp α) : Prop :=
-  ∀ n (e e' : Env α), (∀ u, Needs W p n u → e u = e' u) → ∀ o, F n e o = F n e' o
+def NotProducedIn (W : World) (l : List NId) (u : VId) : Prop :=
+  ∀ m, m ∈ l → ¬ u ∈ (W.nodeD m).outputs
+
+def LocalAt {α : Type} (W : World) (p : GId) (F : Interp α) (n : NId) : Prop :=
+  ∀ (e e' : Env α), (∀ u, Needs W p n u → e u = e' u) → ∀ o, o ∈ (W.nodeD n).outputs → F n e o = F n e' o
+
+def Local {α : Type} (W : World) (p : GId) (F : Interp α) : Prop := ∀ n, LocalAt W p F n
 
 def evalNode {α : Type} (W : World) (F : Interp α) (e : Env α) (n : NId) : Env α :=
   fun v => if v ∈ (W.nodeD n).outputs then F n e v else e v
 
 def evalNodes {α : Type} (W : World) (F : Interp α) (ns : List NId) (e : Env α) : Env α :=
   ns.foldl (evalNode W F) e
-
-def NotProducedIn (W : World) (l : List NId) (u : VId) : Prop :=
-  ∀ m, m ∈ l → ¬ u ∈ (W.nodeD m).outputs
 
 theorem evalNodes_not_produced {α : Type} {W : World} {F : Interp α} {u : VId} :
     ∀ (l : List NId) (e : Env α), NotProducedIn W l u → evalNodes W F l e u = e u
@@ -40,6 +42,41 @@ theorem evalNodes_not_produced {α : Type} {W : World} {F : Interp α} {u : VId}
 theorem evalNodes_append {α : Type} {W : World} {F : Interp α} (l1 l2 : List NId) (e : Env α) :
     evalNodes W F (l1 ++ l2) e = evalNodes W F l2 (evalNodes W F l1 e) := by
   unfold evalNodes
+  rw [List.foldl_append]
+
+/-- one node of the extracted graph: the values in `fz` (boundary inputs whose consumers were rewired to the
+    graph input, D153) are never overwritten -/
+def evalNodeFz {α : Type} (W : World) (F : Interp α) (fz : List VId) (e : Env α) (n : NId) : Env α :=
+  fun v => if v ∈ fz then e v else if v ∈ (W.nodeD n).outputs then F n e v else e v
+
+def evalNodesFz {α : Type} (W : World) (F : Interp α) (fz : List VId) (ns : List NId) (e : Env α) : Env α :=
+  ns.foldl (evalNodeFz W F fz) e
+
+theorem evalNodesFz_nil {α : Type} (W : World) (F : Interp α) (ns : List NId) (e : Env α) :
+    evalNodesFz W F [] ns e = evalNodes W F ns e := by
+  have hf : evalNodeFz W F [] = evalNode W F := by
+    funext e n v
+    simp [evalNodeFz, evalNode]
+  unfold evalNodesFz evalNodes
+  rw [hf]
+
+theorem evalNodesFz_not_produced {α : Type} {W : World} {F : Interp α} {fz : List VId} {u : VId} :
+    ∀ (l : List NId) (e : Env α), NotProducedIn W l u → evalNodesFz W F fz l e u = e u
+  | [], e, _ => rfl
+  | n :: l, e, h => by
+    unfold evalNodesFz
+    simp only [List.foldl_cons]
+    have h1 : NotProducedIn W l u := fun m hm => h m (List.mem_cons_of_mem _ hm)
+    have := evalNodesFz_not_produced (F := F) (fz := fz) l (evalNodeFz W F fz e n) h1
+    unfold evalNodesFz at this
+    rw [this]
+    unfold evalNodeFz
+    simp [h n List.mem_cons_self]
+
+theorem evalNodesFz_append {α : Type} {W : World} {F : Interp α} {fz : List VId} (l1 l2 : List NId)
+    (e : Env α) :
+    evalNodesFz W F fz (l1 ++ l2) e = evalNodesFz W F fz l2 (evalNodesFz W F fz l1 e) := by
+  unfold evalNodesFz
   rw [List.foldl_append]
 
 /-- single assignment + topological order of the source node list, relative to what a node needs -/
@@ -61,88 +98,102 @@ theorem TopoSorted.tail {W : World} {p : GId} : ∀ {pre l : List NId}, TopoSort
 
 section
 variable {α : Type} {W : World} {p : GId} {F : Interp α} {I O : List VId} {g : List NId}
-variable (keep : NId → Bool) (env0 env1 : Env α)
+variable (keep : NId → Bool) (fz : List VId) (env0 env1 : Env α)
 
-/-- the core induction: `pre` has been executed on both sides -/
-theorem eval_agree_aux (hF : Local W p F) (hS : SourceOK W p g)
+/-- the core induction: `pre` has been executed on both sides; the extracted side runs the kept nodes and
+    never overwrites the values in `fz ⊆ I` -/
+theorem eval_agree_aux (hF : ∀ n, n ∈ g → LocalAt W p F n) (hS : SourceOK W p g)
     (hkeep : ∀ n, n ∈ g → (keep n = true ↔ NeedN W p I O n))
+    (hfz : ∀ u, u ∈ fz → u ∈ I)
     (hI : ∀ u, u ∈ I → env1 u = evalNodes W F g env0 u) :
     ∀ (l pre : List NId), g = pre ++ l →
       (∀ u, (u ∈ I ∨ Reach W p I O u) → NotProducedIn W l u →
-        evalNodes W F (pre.filter keep) env1 u = evalNodes W F g env0 u) →
+        evalNodesFz W F fz (pre.filter keep) env1 u = evalNodes W F g env0 u) →
       ∀ u, (u ∈ I ∨ Reach W p I O u) →
-        evalNodes W F (g.filter keep) env1 u = evalNodes W F g env0 u
+        evalNodesFz W F fz (g.filter keep) env1 u = evalNodes W F g env0 u
   | [], pre, hg, h => by
     intro u hu
     have : g = pre := by simpa using hg
     subst this
     exact h u hu (fun m hm => by cases hm)
   | n :: rest, pre, hg, h => by
-    apply eval_agree_aux hF hS hkeep hI rest (pre ++ [n]) (by simp [hg])
+    apply eval_agree_aux hF hS hkeep hfz hI rest (pre ++ [n]) (by simp [hg])
     intro u hu hnp
     have hng : n ∈ g := by rw [hg]; simp
-    -- the source environment before and after `n`
     have hT : evalNodes W F g env0 = evalNodes W F (n :: rest) (evalNodes W F pre env0) := by
       rw [hg, evalNodes_append]
     have hsorted : TopoSorted W p (n :: rest) := by
       have := hS.sorted; rw [hg] at this; exact this.tail
+    -- a value produced by `n` is produced by no node of `pre`
+    have hnpre : ∀ v, v ∈ (W.nodeD n).outputs → NotProducedIn W (pre.filter keep) v := by
+      intro v hvo m hm hmo
+      have hpv : W.prod v = some n := hS.prodOut n hng v hvo
+      have hmpre : m ∈ pre := (List.mem_filter.mp hm).1
+      have hmg : m ∈ g := by rw [hg]; exact List.mem_append_left _ hmpre
+      have := hS.prodOut m hmg v hmo
+      rw [hpv] at this
+      cases this
+      have hnd := hS.nodup
+      rw [hg] at hnd
+      exact (List.nodup_append.mp hnd).2.2 n hmpre n List.mem_cons_self rfl
     rw [List.filter_append]
     by_cases hk : keep n = true
-    · -- `n` is kept: its outputs are recomputed from agreeing inputs
-      have hN : NeedN W p I O n := (hkeep n hng).mp hk
+    · have hN : NeedN W p I O n := (hkeep n hng).mp hk
       simp only [List.filter_cons, hk, if_true, List.filter_nil]
-      rw [evalNodes_append]
-      by_cases huo : u ∈ (W.nodeD n).outputs
-      · have hneeds : ∀ w, Needs W p n w →
-            evalNodes W F (pre.filter keep) env1 w = evalNodes W F pre env0 w := by
-          intro w hw
-          have hgood : w ∈ I ∨ Reach W p I O w := by
-            by_cases hwI : w ∈ I
-            · exact Or.inl hwI
-            · obtain ⟨v, hr, hp⟩ := hN
-              exact Or.inr (Reach.step hr hp hw hwI)
-          have hnpw : NotProducedIn W (n :: rest) w := hsorted.1 w hw
-          rw [h w hgood hnpw, hT, evalNodes_not_produced _ _ hnpw]
-        have e1 : evalNodes W F [n] (evalNodes W F (pre.filter keep) env1) u
-            = F n (evalNodes W F (pre.filter keep) env1) u := by
-          simp [evalNodes, evalNode, huo]
-        rw [e1, hF n _ _ hneeds u, hT]
-        have e2 : evalNodes W F (n :: rest) (evalNodes W F pre env0)
-            = evalNodes W F rest (evalNode W F (evalNodes W F pre env0) n) := by
-          simp [evalNodes]
-        rw [e2, evalNodes_not_produced _ _ hnp]
-        simp [evalNode, huo]
-      · have hnp' : NotProducedIn W (n :: rest) u := by
-          intro m hm
-          rcases List.mem_cons.mp hm with rfl | hm
-          · exact huo
-          · exact hnp m hm
-        have e1 : evalNodes W F [n] (evalNodes W F (pre.filter keep) env1) u
-            = evalNodes W F (pre.filter keep) env1 u := by
-          simp [evalNodes, evalNode, huo]
+      rw [evalNodesFz_append]
+      by_cases hufz : u ∈ fz
+      · -- frozen boundary input: still the value supplied at the boundary
+        have e1 : evalNodesFz W F fz [n] (evalNodesFz W F fz (pre.filter keep) env1) u
+            = evalNodesFz W F fz (pre.filter keep) env1 u := by
+          simp [evalNodesFz, evalNodeFz, hufz]
         rw [e1]
-        exact h u hu hnp'
-    · -- `n` is dropped
-      have hk' : keep n = false := by simpa using hk
+        by_cases huo : u ∈ (W.nodeD n).outputs
+        · rw [evalNodesFz_not_produced _ _ (hnpre u huo)]
+          exact hI u (hfz u hufz)
+        · exact h u hu (by
+            intro m hm
+            rcases List.mem_cons.mp hm with rfl | hm
+            · exact huo
+            · exact hnp m hm)
+      · by_cases huo : u ∈ (W.nodeD n).outputs
+        · have hneeds : ∀ w, Needs W p n w →
+              evalNodesFz W F fz (pre.filter keep) env1 w = evalNodes W F pre env0 w := by
+            intro w hw
+            have hgood : w ∈ I ∨ Reach W p I O w := by
+              by_cases hwI : w ∈ I
+              · exact Or.inl hwI
+              · obtain ⟨v, hr, hp⟩ := hN
+                exact Or.inr (Reach.step hr hp hw hwI)
+            have hnpw : NotProducedIn W (n :: rest) w := hsorted.1 w hw
+            rw [h w hgood hnpw, hT, evalNodes_not_produced _ _ hnpw]
+          have e1 : evalNodesFz W F fz [n] (evalNodesFz W F fz (pre.filter keep) env1) u
+              = F n (evalNodesFz W F fz (pre.filter keep) env1) u := by
+            simp [evalNodesFz, evalNodeFz, huo, hufz]
+          rw [e1, hF n hng _ _ hneeds u huo, hT]
+          have e2 : evalNodes W F (n :: rest) (evalNodes W F pre env0)
+              = evalNodes W F rest (evalNode W F (evalNodes W F pre env0) n) := by
+            simp [evalNodes]
+          rw [e2, evalNodes_not_produced _ _ hnp]
+          simp [evalNode, huo]
+        · have hnp' : NotProducedIn W (n :: rest) u := by
+            intro m hm
+            rcases List.mem_cons.mp hm with rfl | hm
+            · exact huo
+            · exact hnp m hm
+          have e1 : evalNodesFz W F fz [n] (evalNodesFz W F fz (pre.filter keep) env1) u
+              = evalNodesFz W F fz (pre.filter keep) env1 u := by
+            simp [evalNodesFz, evalNodeFz, huo, hufz]
+          rw [e1]
+          exact h u hu hnp'
+    · have hk' : keep n = false := by simpa using hk
       simp only [List.filter_cons, hk', Bool.false_eq_true, if_false, List.filter_nil, List.append_nil]
       by_cases huo : u ∈ (W.nodeD n).outputs
-      · -- `u` is produced only by the dropped node, so it is a boundary input that nobody recomputed
-        have hpu : W.prod u = some n := hS.prodOut n hng u huo
+      · have hpu : W.prod u = some n := hS.prodOut n hng u huo
         have huI : u ∈ I := by
           rcases hu with hu | hu
           · exact hu
           · exact absurd ((hkeep n hng).mpr ⟨u, hu, hpu⟩) hk
-        have hnpre : NotProducedIn W (pre.filter keep) u := by
-          intro m hm hmo
-          have hmpre : m ∈ pre := (List.mem_filter.mp hm).1
-          have hmg : m ∈ g := by rw [hg]; exact List.mem_append_left _ hmpre
-          have := hS.prodOut m hmg u hmo
-          rw [hpu] at this
-          cases this
-          have hnd := hS.nodup
-          rw [hg] at hnd
-          exact (List.nodup_append.mp hnd).2.2 n hmpre n List.mem_cons_self rfl
-        rw [evalNodes_not_produced _ _ hnpre]
+        rw [evalNodesFz_not_produced _ _ (hnpre u huo)]
         exact hI u huI
       · have hnp' : NotProducedIn W (n :: rest) u := by
           intro m hm
